@@ -537,7 +537,7 @@ example : fdefineOk (some 8) 8191 = true ∧ fdefineOk (some 8) 8192 = false ∧
     (`ivsize`, a `uint16`) stays ≤ `MAX_FIELD_SIZE` -/
 theorem setfields_accept_iff (sizes : List Nat) :
     (setfields sizes).1 = true ↔ 1 ≤ sizes.length ∧ sizes.length ≤ 256 ∧ sizes.sum ≤ 65535 := by
-  unfold setfields
+  unfold setfields setfieldsV
   simp only [(consts2).2.2.2.1]
   split
   · rename_i h; simp only [Bool.or_eq_true, decide_eq_true_eq] at h
@@ -546,28 +546,50 @@ theorem setfields_accept_iff (sizes : List Nat) :
     · intro ⟨a, b, _⟩; omega
   · rename_i h; simp only [Bool.or_eq_true, decide_eq_true_eq, not_or] at h
     have := (setfieldsLoop_spec sizes 0 0 (by omega)).1
-    rw [this]; omega
+    simp only [Bool.not_true, Bool.or_false]
+    split
+    · rename_i hl; have := this.mp hl; simp only [hl, true_iff]; omega
+    · rename_i hl; rw [this] at hl; constructor
+      · intro hh; cases hh
+      · intro ⟨_, _, c⟩; omega
 
 /-- an accepted list is taken completely and the record size is the exact sum (no 16-bit wrap) -/
 theorem setfields_accepted (sizes : List Nat) (h : (setfields sizes).1 = true) :
     (setfields sizes).2.1 = sizes.length ∧ (setfields sizes).2.2 = sizes.sum ∧ sizes.sum < 65536 := by
   have hacc := (setfields_accept_iff sizes).mp h
-  unfold setfields at h ⊢
+  unfold setfields setfieldsV at h ⊢
   split
   · rename_i hh; rw [if_pos hh] at h; cases h
   · rename_i hh; rw [if_neg hh] at h
-    have := (setfieldsLoop_spec sizes 0 0 (by omega)).2.1 h
-    omega
+    simp only [Bool.not_true, Bool.or_false] at h ⊢
+    split
+    · rename_i hl
+      have := (setfieldsLoop_spec sizes 0 0 (by omega)).2.1 hl
+      omega
+    · rename_i hl; rw [if_neg hl] at h; cases h
 
-/-- the number of fields left in the write list never exceeds the number of names given (no counter wrap) — but
-    after a REFUSED list it need not be 0: see the example (known finding `limits-setfields-partial`) -/
-theorem setfields_count_le (sizes : List Nat) : (setfields sizes).2.1 ≤ sizes.length := by
-  unfold setfields
+/-- **a refused field list changes nothing**: whatever the reason for the refusal (no name, too many names, a
+    field or the record beyond `MAX_FIELD_SIZE`, at any position of the list) the write list is empty afterwards
+    (`wlist.n = 0`, `wlist.ivsize = 0`), so the vdata can be given another list -/
+theorem setfields_refused_clean (sizes : List Nat) (h : (setfields sizes).1 = false) :
+    (setfields sizes).2 = (0, 0) := by
+  unfold setfields setfieldsV at h ⊢
   split
-  · simp
-  · have := (setfieldsLoop_spec sizes 0 0 (by omega)).2.2.1; omega
+  · rfl
+  · rename_i hh; rw [if_neg hh] at h
+    simp only [Bool.not_true, Bool.or_false] at h ⊢
+    split
+    · rename_i hl; rw [if_pos hl] at h; rw [hl] at h; cases h
+    · rfl
 
-example : setfields [40000, 20000, 10000, 5] = (false, 2, 60000) := by decide
+theorem setfields_count_le (sizes : List Nat) : (setfields sizes).2.1 ≤ sizes.length := by
+  cases h : (setfields sizes).1
+  · rw [setfields_refused_clean sizes h]; omega
+  · rw [(setfields_accepted sizes h).1]; omega
+
+/-- the separating input for the repair: before it the first two fields stayed in the write list -/
+example : setfields [40000, 20000, 10000, 5] = (false, 0, 0) ∧ setfieldsV false [40000, 20000, 10000, 5] = (false, 2, 60000)
+    ∧ setfields [5, 40000] = (true, 2, 40005) := by decide
 example : setfields (List.replicate 256 255) = (true, 256, 65280) ∧ (setfields (List.replicate 257 1)).1 = false := by
   constructor <;> decide +kernel
 
@@ -594,58 +616,64 @@ theorem stored_prefix (a : NameApi) (n s : Name) (h : nameStored a n = some s) :
   cases a <;> simp only [nameStored, Option.some.injEq] at h
   all_goals first
     | (subst h; exact List.take_prefix _ _)
-    | (subst h; exact List.prefix_refl _)
     | (split at h
        · cases h
        · simp only [Option.some.injEq] at h; subst h; exact List.prefix_refl _)
 
+/-- the vgroup record keeps an accepted name whole -/
+theorem vgRecordName_id (n : Name) (h : n.length ≤ 65535) : vgRecordName n = n := by
+  unfold vgRecordName
+  rw [Nat.mod_eq_of_lt (by omega), List.take_length]
+
+/-- **Vgroup-backed names (`Vsetname`, `Vsetclass`, `GRcreate`) are accepted iff they fit the 16-bit length field
+    of the vgroup record** … -/
+theorem vgname_accept_iff (a : NameApi) (ha : a = .vgname ∨ a = .vgclass ∨ a = .grname) (n : Name) :
+    (nameStored a n).isSome = true ↔ n.length ≤ 65535 := by
+  rcases ha with rfl | rfl | rfl <;>
+    (simp only [nameStored, (consts2).2.2.2.2.2.2.2.2.1]; split <;> simp <;> omega)
+
+/-- … **and every accepted one survives close and reopen unchanged** (before the repair the hypothesis
+    `n.length < 65536` was needed: longer names were accepted and came back modulo 65536) -/
+theorem vgname_roundtrip (a : NameApi) (ha : a = .vgname ∨ a = .vgclass ∨ a = .grname) (n : Name) :
+    nameReopened a n = nameStored a n := by
+  rcases ha with rfl | rfl | rfl <;>
+    (simp only [nameReopened, nameStored, (consts2).2.2.2.2.2.2.2.2.1]
+     split
+     · rfl
+     · rename_i h; simp only [Option.map_some, Option.some.injEq]; exact vgRecordName_id n (by omega))
+
 theorem reopened_prefix (a : NameApi) (n s : Name) (h : nameReopened a n = some s) : s <+: n := by
   cases a
-  case vgname => simp only [nameReopened, Option.some.injEq] at h; subst h; exact List.take_prefix _ _
-  case vgclass => simp only [nameReopened, Option.some.injEq] at h; subst h; exact List.take_prefix _ _
-  case grname => simp only [nameReopened, Option.some.injEq] at h; subst h; exact List.take_prefix _ _
+  case vgname => rw [vgname_roundtrip _ (Or.inl rfl)] at h; exact stored_prefix _ n s h
+  case vgclass => rw [vgname_roundtrip _ (Or.inr (Or.inl rfl))] at h; exact stored_prefix _ n s h
+  case grname => rw [vgname_roundtrip _ (Or.inr (Or.inr rfl))] at h; exact stored_prefix _ n s h
   all_goals exact stored_prefix _ n s (by simpa [nameReopened] using h)
 
 /-- the fixed buffers: `VSsetname`/`VSsetclass` put at most `VSNAMELENMAX + 1 = sizeof vsname` bytes (terminator
     included) into the vdata record, field names at most `FIELDNAMELENMAX + 1` into a `scanattrs` row; SD names that
-    are accepted have at most `H4_MAX_NC_NAME` characters -/
+    are accepted have at most `H4_MAX_NC_NAME` characters, vgroup-backed names at most 65535 and are kept whole -/
 theorem stored_length_le (a : NameApi) (n s : Name) (h : nameStored a n = some s) :
     match a with
     | .vsname | .vsclass => s.length ≤ VSNAMELENMAX ∧ (copyTrunc VSNAMELENMAX n).length ≤ H4.Gen.Limits.SIZEOF_VSNAME
     | .field => s.length ≤ FIELDNAMELENMAX ∧ (copyTrunc FIELDNAMELENMAX n).length ≤ FIELDNAMELENMAX + 1
     | .sdname | .dimname | .attrname => s.length ≤ H4_MAX_NC_NAME
-    | .vgname | .vgclass | .grname => s = n := by
+    | .vgname | .vgclass | .grname => s = n ∧ n.length ≤ H4.Gen.Limits.UINT16_MAX := by
   cases a <;> simp only [nameStored, Option.some.injEq] at h
   case vsname => subst h; simp [copyTrunc, (consts2).2.2.2.2.1, (consts2).2.2.2.2.2.2.2.2.2.1]; omega
   case vsclass => subst h; simp [copyTrunc, (consts2).2.2.2.2.1, (consts2).2.2.2.2.2.2.2.2.2.1]; omega
   case field => subst h; simp [copyTrunc, (consts2).2.2.2.2.2.1]; omega
-  case vgname => exact h.symm
-  case vgclass => exact h.symm
-  case grname => exact h.symm
   all_goals
     split at h
     · cases h
     · rename_i hh; simp only [Option.some.injEq] at h; subst h; simp only
       have h64 := (consts2).2.2.2.2.1
       have h256 := (consts2).2.2.2.2.2.2.1
-      omega
+      first | omega | exact ⟨trivial, by omega⟩ | exact ⟨rfl, by omega⟩
 
 /-- SD names: accepted iff at most `H4_MAX_NC_NAME` characters -/
 theorem sdname_accept_iff (n : Name) : (nameStored .sdname n).isSome = true ↔ n.length ≤ 256 := by
   simp only [nameStored, (consts2).2.2.2.2.2.2.1]
   split <;> simp <;> omega
-
-/-- Vgroup-backed names (`Vsetname`, `Vsetclass`, `GRcreate`) survive close/reopen iff they are shorter than 65536:
-    `vpackvg` stores `(uint16)strlen(name)` (finding `limits-name-len16-wrap`) -/
-theorem vgname_roundtrip_iff (n : Name) : nameReopened .vgname n = nameStored .vgname n ↔ n.length < 65536 := by
-  simp only [nameReopened, nameStored, Option.some.injEq]
-  constructor
-  · intro h
-    have := congrArg List.length h
-    simp only [List.length_take] at this
-    omega
-  · intro h
-    rw [Nat.mod_eq_of_lt h, List.take_length]
 
 /-- SD attribute names: `SDsetattr` accepts a name iff a vdata name can hold it (`VSNAMELENMAX` characters), and every
     accepted name survives close/reopen unchanged (before the repair longer names were accepted and came back truncated:
@@ -657,16 +685,25 @@ theorem attrname_accept_iff (n : Name) : (nameStored .attrname n).isSome = true 
 theorem attrname_roundtrip (n : Name) : nameReopened .attrname n = nameStored .attrname n := by
   simp [nameReopened]
 
-/-- the length read back for a Vgroup-backed name is the given length modulo 2^16 -/
-theorem vgname_reopened_length (n s : Name) (h : nameReopened .vgname n = some s) : s.length = n.length % 65536 := by
-  simp only [nameReopened, Option.some.injEq] at h
-  subst h
+/-- historical: what `vpackvg` makes of a name that is NOT refused first (the code before the repair accepted it):
+    its length modulo 2^16 -/
+theorem vgRecordName_length (n : Name) : (vgRecordName n).length = n.length % 65536 := by
+  unfold vgRecordName
   rw [List.length_take]
   have := Nat.mod_le n.length 65536
   omega
 
-example : ∃ s, nameReopened .vgname (List.replicate 70000 97) = some s ∧ s.length = 4464 :=
-  ⟨_, rfl, by rw [vgname_reopened_length _ _ rfl, List.length_replicate]⟩
+example : (vgRecordName (List.replicate 70000 97)).length = 4464 := by
+  rw [vgRecordName_length, List.length_replicate]
+
+example : nameStored .vgname (List.replicate 65536 97) = none ∧ (nameStored .grname (List.replicate 65535 97)).isSome = true := by
+  constructor
+  · have h := vgname_accept_iff .vgname (Or.inl rfl) (List.replicate 65536 97)
+    rw [List.length_replicate] at h
+    cases hs : nameStored .vgname (List.replicate 65536 97) with
+    | none => rfl
+    | some x => rw [hs] at h; have := h.mp rfl; omega
+  · rw [vgname_accept_iff .grname (Or.inr (Or.inr rfl)), List.length_replicate]; omega
 
 example : nameStored .sdname (List.replicate 257 97) = none ∧ (nameStored .sdname (List.replicate 256 97)).isSome = true := by
   constructor
